@@ -172,6 +172,12 @@ def main(tier):
     rep.add_tlc("FixedArray / Curve machine, every entry route, dimensions and lengths 0..4, chains of %d calls" % (4 if thorough else 3), r)
     if r.violated:
         raise common.MachineryError("the specification itself violates %s\n%s" % (r.violated, "\n".join(common.tlc_counterexample(r.stdout, 60))))
+    # histories of any length: every pool of up to two arrays that satisfies SizeInvariant and every curve that satisfies CurveInvariant take every
+    # call once; the invariants hold again and the action properties hold for the step (the pool is append-only, a call reads at most two members)
+    ri = common.run_tlc("MC_FixedArrInd", "MC_FixedArrInd.cfg", bd, consts={"MaxDim": 4 if thorough else 3}, coverage=False, tag="inductive", timeout=6000)
+    rep.add_tlc("inductive check: every invariant-satisfying pool of up to two arrays (dimensions 2..%d) and curve x every call" % (4 if thorough else 3), ri)
+    if ri.violated:
+        raise common.MachineryError("the specification is not inductive: %s\n%s" % (ri.violated, "\n".join(common.tlc_counterexample(ri.stdout, 60))))
     db = export.build_db("default")
     UnitDatabase.PushSingleton(db)
     n = 0
